@@ -252,6 +252,8 @@ class Engine:
 
     def resolve_qualified(self, m: str, n: str | None):
         if n is None:
+            if f"{m}:" in self.reg.natives:
+                return self.reg.natives[f"{m}:"]   # a dependency module with an assumed model (re, hashlib, json, ...)
             return ModVal(m)
         key = f"{m}:{n}"
         if key in self.reg.natives:
@@ -368,7 +370,15 @@ class Engine:
                 t = z3.Concat(t, z3.StringVal(str(part.value)))
                 template += str(part.value)
             else:
-                t = z3.Concat(t, z3.String(fresh_name("fmt")))
+                piece = None
+                if isinstance(part.value, (ast.Name, ast.Attribute)) and part.format_spec is None and part.conversion == -1:
+                    try:
+                        res = self.eval(part.value, st)
+                        if len(res) == 1 and res[0][0] == OK and isinstance(res[0][2], Val) and res[0][2].ty == STR:
+                            piece = res[0][2].term   # a string-valued name is interpolated as itself
+                    except Unsupported:
+                        piece = None
+                t = z3.Concat(t, piece if piece is not None else z3.String(fresh_name("fmt")))
                 template += "{" + ast.unparse(part.value) + "}"
         return [(OK, st, Val(z3.simplify(t), STR, template=template))]
 
@@ -598,7 +608,7 @@ class Engine:
             l = None if isinstance(lo, NoneVal) else _const_int(lo)
             h = None if isinstance(hi, NoneVal) else _const_int(hi)
             return ListVal(base.items[l:h])
-        if isinstance(base, Val) and isinstance(base.ty, SeqT):
+        if isinstance(base, Val) and (isinstance(base.ty, SeqT) or base.ty == STR):
             n = z3.Length(base.term)
             def norm(v, default):
                 if isinstance(v, NoneVal):
@@ -608,7 +618,8 @@ class Engine:
                 return t
             l = norm(lo, z3.IntVal(0))
             h = norm(hi, n)
-            return Val(z3.If(h > l, z3.SubSeq(base.term, l, h - l), base.ty.empty()), base.ty)
+            empty = z3.StringVal("") if base.ty == STR else base.ty.empty()
+            return Val(z3.If(h > l, z3.SubSeq(base.term, l, h - l), empty), base.ty)
         raise Unsupported(f"slice of {base!r}")
 
     def subscript_read(self, st, base, idx, node=None):
@@ -646,6 +657,12 @@ class Engine:
             self.implicit(st, ty.opt.is_some(cell), "KeyError", "dict subscript")
             return [(OK, st, Val(ty.opt.val(cell), ty.val,
                                  origin=("sub", base.origin, Val(kterm, ty.key)) if base.origin else None))]
+        if isinstance(base, Val) and base.ty == STR:
+            i = coerce(idx, INT).term
+            n = z3.Length(base.term)
+            self.implicit(st, z3.And(i >= -n, i < n), "IndexError", "string index")
+            i2 = z3.If(i < 0, n + i, i)
+            return [(OK, st, Val(z3.SubString(base.term, i2, 1), STR))]
         if isinstance(base, Val) and isinstance(base.ty, SeqT):
             i = coerce(idx, INT).term
             n = z3.Length(base.term)
